@@ -128,6 +128,11 @@ pub fn units(tier: Tier, seed: u64) -> Vec<UnitSpec> {
     for d in [255u32, 256, 65_534] {
         u.push(UnitSpec::Special { name: "deep-array-descriptor".into(), depth: d });
     }
+    // an invokeinterface whose descriptor has 127 / 128 / 255 / 256 / 1000 two-slot arguments (the writer derives the
+    // count byte from the descriptor)
+    for d in [127u32, 128, 255, 256, 1000] {
+        u.push(UnitSpec::Special { name: "many-args-invokeinterface".into(), depth: d });
+    }
     for d in match tier {
         Tier::Quick => vec![40u32, 600],
         Tier::Thorough => vec![40, 600, 2500],
@@ -433,6 +438,30 @@ fn special(name: &str, depth: u32) -> SeedInput {
             push_u16(&mut f, 9);
             push_u16(&mut f, 0);
             class_seed(assemble(&cp, 13, 2, 4, &f, 1, &[], 0, &[], 0), vec![])
+        }
+        "many-args-invokeinterface" => {
+            let mut desc = String::from("(");
+            for _ in 0..depth {
+                desc.push('J');
+            }
+            desc.push_str(")V");
+            let mut cp = vec![e_utf8("A"), e_class(1), e_utf8("java/lang/Object"), e_class(3), e_utf8("m"), e_utf8("()V"), e_utf8("Code"), e_utf8("I"), e_class(8), e_utf8("f"), e_utf8(&desc)];
+            cp.push(vec![12, 0, 10, 0, 11]);
+            cp.push(vec![11, 0, 9, 0, 12]);
+            let mut code = vec![];
+            push_u16(&mut code, 2);
+            push_u16(&mut code, 1);
+            push_u32(&mut code, 7);
+            code.extend_from_slice(&[0x2a, 0xb9, 0, 13, 1, 0, 0xb1]);
+            push_u16(&mut code, 0);
+            push_u16(&mut code, 0);
+            let mut m = vec![];
+            push_u16(&mut m, 0x0001);
+            push_u16(&mut m, 5);
+            push_u16(&mut m, 6);
+            push_u16(&mut m, 1);
+            m.extend_from_slice(&attr(7, &code));
+            class_seed(assemble(&cp, 14, 2, 4, &[], 0, &m, 1, &[], 0), vec![])
         }
         "deep-enigma" => {
             let mut s = String::new();
